@@ -58,6 +58,11 @@ pub fn outbuf_dependence(what: &str) { if let Ok(mut v) = OUTBUF_DEP.lock() { if
 /// fill pattern for the second run, chosen by the call's own randomness so that a replay takes the same one
 pub fn dirty_fill(tape: &[u8]) -> u8 { if tape.first().map_or(0, |b| b & 1) == 0 { 0xff } else { 0xa5 } }
 
+/// WATCHDOG.  `Report::case` records when a case starts; a background thread (main.rs) turns a case that does not finish within
+/// the stall limit into a report with one predicate failure (`hang:<stream>`, the case's request as the replay) and ends the
+/// process: a call of the code under test that never returns must not hang the check.
+pub static PROGRESS: std::sync::Mutex<Option<(std::time::Instant, String, String, u64)>> = std::sync::Mutex::new(None);
+
 impl Report {
     /// report what the out-buffer probe saw since the last call (attributed to `last_request`)
     pub fn drain_outbuf(&mut self) {
@@ -81,6 +86,7 @@ impl Report {
         self.drain_outbuf();
         if let Some(id) = nontrivial_id { self.last_request = id.to_string(); }
         self.evaluations += 1;
+        if let Ok(mut g) = PROGRESS.lock() { *g = Some((std::time::Instant::now(), stream.to_string(), self.last_request.clone(), self.evaluations)); }
         let c = self.streams.entry(stream.to_string()).or_insert(0);
         *c += 1;
         if let Some(id) = nontrivial_id {
